@@ -740,7 +740,7 @@ pub fn run_c06(ctx: &Ctx) -> ! {
     let mut rep = Report::new(
         ctx,
         "model_checking",
-        "well-formed messages (D-corpus + curated short ones) x payload {none, [03], IPP look-alike, 70 000 patterned bytes} x read fragmentations of the header+attributes section (whole = read-ahead possible; uniform sizes 1..64; every 1-cut; every 2-cut for short messages; EVERY composition for messages <= 16 (21) bytes) x for the blocking reader Err(Interrupted) before each chunk and twice x for the async reader a not-ready answer before each chunk x entry points parse / parse_parts x both parsers. A monitor inside the scripted source records bytes delivered and the furthest offset any read ever ASKED for at the moment parse returns. Oracle: delivered == |header+attributes| exactly, nothing requested beyond it, payload read afterwards is byte-identical, content equals the whole-delivery result. states = distinct (input, number of chunks, interrupts / readiness mode) triples; transitions = read calls answered; non-trivial = more than one chunk",
+        "well-formed messages (D-corpus + curated short ones) x payload {none, [03], IPP look-alike, 70 000 patterned bytes, 1 MiB + 64 KiB + 1 for two inputs} x read fragmentations of the header+attributes section (whole = read-ahead possible; uniform sizes 1..64; every 1-cut; every 2-cut for short messages; EVERY composition for messages <= 16 (21) bytes) x for the blocking reader Err(Interrupted) before each chunk and twice x for the async reader a not-ready answer before each chunk x entry points parse / parse_parts x both parsers. A monitor inside the scripted source records bytes delivered and the furthest offset any read ever ASKED for at the moment parse returns. Oracle: delivered == |header+attributes| exactly, nothing requested beyond it, payload read afterwards is byte-identical, content equals the whole-delivery result. states = distinct (input, number of chunks, interrupts / readiness mode) triples; transitions = read calls answered; non-trivial = more than one chunk",
     );
     let tier = ctx.tier;
     let limit = tier.pick(16usize, 21usize);
@@ -768,7 +768,13 @@ pub fn run_c06(ctx: &Ctx) -> ! {
         };
         let head_len = bytes.len() - m.data.len();
         let head = bytes[..head_len].to_vec();
-        let pk: &[u8] = if head_len > 64 { &[0, 2] } else { &[0, 1, 2, 3] };
+        let pk: &[u8] = if name == "op-int" || name == "gpa-response" {
+            &[0, 1, 2, 3, 4]
+        } else if head_len > 64 {
+            &[0, 2]
+        } else {
+            &[0, 1, 2, 3]
+        };
         for &k in pk {
             let payload = crate::space::payload_of(k, ctx.seed);
             let mut data = head.clone();
